@@ -12,13 +12,15 @@ reply `[ruleSchedule | null, [[clauses, refine, makespan] …]]`
   clauses      : the seven conjuncts of the verified checker `chkSchedule`
   refine       : `isDispatchOf` (the schedule is the abstract machine's for its own pick order)
 
-request `["vrp", n, req, dist, demand, twStart, twEnd, service, cap, weights, tol, states, steps]`
+request `["vrp", n, req, dist, demand, twStart, twEnd, service, cap, weights, tol, rel, xy, states, steps]`
   req/demand/twStart/twEnd/service : per customer index 0..n (0 = depot); twEnd / cap entries `null` = +∞
   dist     : (n+1)×(n+1) rationals (the implementation's cached distance matrix, exact)
   weights  : six entries (dw, vw, twp, capp, syncp, unp); a `null` entry = default of `vrp_objective`
   states   : list of `[routes, unassigned, arrival_times, objective]`
   steps    : list of `[kind, pre, post]` (indices into states; kind 0 = destroy, 1 = repair)
-reply `[[[inv, arrOK, objOK, exactObj] …], [refines …]]`
+  tol/rel  : absolute tolerance (arrival times, objective) and relative slack (objective, d²)
+  xy       : coordinates per index 0..n
+reply `[[[inv, arrOK, objOK, exactObj] …], [refines …], euclidOK]`
 -/
 namespace Solvor.Sched
 open Solvor.Proto
@@ -86,11 +88,11 @@ private def pick (d : Rat) : Option Rat → Rat
 
 private def handleVrp (args : List Val) : String :=
   match args with
-  | [n, req, dist, demand, tws, twe, svc, cap, weights, tol, states, steps] =>
+  | [n, req, dist, demand, tws, twe, svc, cap, weights, tol, rel, xy, states, steps] =>
     match n.toNat?, req.toNats?, dist.toRatss?, demand.toRats?, tws.toRats?, optRats twe, svc.toRats?,
-          optRats cap, optRats weights, tol.toRat?, states.toArr?, steps.toNatss? with
+          optRats cap, optRats weights, tol.toRat?, rel.toRat?, xy.toRatss?, states.toArr?, steps.toNatss? with
     | some n, some req, some dist, some demand, some tws, some twe, some svc, some cap, some ws,
-      some tol, some states, some steps =>
+      some tol, some rel, some xy, some states, some steps =>
       let P : Prob :=
         { n := n, req := getF req 1, dist := fun i j => (dist.getD i []).getD j 0,
           demand := getF demand 0, twStart := getF tws 0, twEnd := getF twe none,
@@ -108,7 +110,7 @@ private def handleVrp (args : List Val) : String :=
             (s.routes.zip a).all fun ra => chkArrivals tol P ra.1 ra.2
           -- the conjunction of these six is `chkInv P s`
           let inv := [chkRange P s, chkNodupU s, chkNotLost P s, chkNotBoth P s, chkNodupR s, chkSingle P s]
-          Val.arr [Val.arr (inv.map Val.bool), Val.bool arrOK, Val.bool (chkObjective tol W P s o),
+          Val.arr [Val.arr (inv.map Val.bool), Val.bool arrOK, Val.bool (chkObjective tol rel W P s o),
                    Val.ofRat (objective W P s)]
         let tv := steps.map fun st =>
           match st with
@@ -118,8 +120,9 @@ private def handleVrp (args : List Val) : String :=
               Val.bool (if k == 0 then isRemove P pre post else isInsertRun P pre post)
             | _, _ => Val.str "bad step index"
           | _ => Val.str "bad step"
-        (Val.arr [Val.arr sv, Val.arr tv]).render
-    | _, _, _, _, _, _, _, _, _, _, _, _ => err "bad vrp arguments"
+        let xyf : Nat → Rat × Rat := fun i => ((xy.getD i []).getD 0 0, (xy.getD i []).getD 1 0)
+        (Val.arr [Val.arr sv, Val.arr tv, Val.bool (chkEuclid rel xyf P)]).render
+    | _, _, _, _, _, _, _, _, _, _, _, _, _, _ => err "bad vrp arguments"
   | _ => err "bad vrp arity"
 
 def handle (line : String) : String :=
